@@ -6,7 +6,7 @@ ID = "C11"
 HARNESS_TEST = "TestC11.*"
 GEN = "c11"
 COQ_MODEL = ["C11/Check.v", "C11/Sites.v", "Gen/C11Facts.v"]
-COQ_PROOF_DEPS = ["C11/Proofs.v", "C11/ProofsPreimage.v", "C11/Examples.v"]
+COQ_PROOF_DEPS = ["C11/Proofs.v", "C11/ProofsPreimage.v", "C11/ProofsRates.v", "C11/Examples.v"]
 COQ_OBLIG = ["C11/Property.v", "Gen/C11Oblig.v"]
 CASES_HEADER = "Require Import Nib.C11.Model Nib.C11.Spec Nib.C11.Check."
 CASE_TYPE = "case"
@@ -20,7 +20,10 @@ RULE = ("TestC11: a case = one history (13-130 events) of oracle messages run on
         "newline, NBSP, NEL, upper/lower case, NFC/NFD spellings, NUL / zero-width characters, invalid UTF-8; reveals by a "
         "non-identical variant that TrimSpace / case fold / NFC / NUL-strip would map to the committed string, followed by "
         "the byte-exact reveal; rate strings with surrounding white space, upper case, leading zeros), the commitment "
-        "always computed by the driver's own SHA-256 over the exact bytes salt:rates:valoper, feeder delegations, VotePeriod / "
+        "always computed by the driver's own SHA-256 over the exact bytes salt:rates:valoper, commitments to and hash-exact "
+        "reveals of strings that are NOT a valid vote (one pair named twice: priced+priced, abstain+priced either order, "
+        "abstain+abstain, adjacent or not; malformed tuples) with the validity decided by the driver's own lexer (vote_msg / "
+        "valid_rates in the model), feeder delegations, VotePeriod / "
         "whitelist edits by the sudo root or a stranger, staking transitions through the real staking keeper + EndBlocker (jail / unjail, MaxValidators shrunk so that "
         "the weakest validators are displaced = Unbonding not jailed, full self-undelegation, unbonding time passing = "
         "Unbonded / removed, create validator), oracle EndBlocker per height, "
@@ -33,8 +36,9 @@ RULE = ("TestC11: a case = one history (13-130 events) of oracle messages run on
 ASSUMPTIONS = [
     "the msg.Feeder / msg.Operator field is the authenticated signer (GetSigners is checked by the driver; signature "
     "verification itself is the SDK ante handler)",
-    "the tuple parser and the WhitelistedPairs membership enter as flags computed by the driver with the repo's parser "
-    "and store before the message is delivered",
+    "well-formedness of the single tuples (denoms, decimal syntax) and the WhitelistedPairs membership enter as flags computed "
+    "by the driver with the repo's parser and store before the message is delivered; that every pair occurs at most once is "
+    "decided by the model (valid_rates) from the driver's own lexing of the string",
     "staking status of a validator (none / not bonded / bonded) is an environment input read from the staking keeper",
     "SHA-256 truncated to 20 bytes is collision free on (salt ':' rates ':' valoper) (theorem hypothesis H injective; "
     "checked on every generated table)",
@@ -97,8 +101,12 @@ def _msg(op, o):
     if k == "prevote":
         return "Prevote %d %d %d %s" % (_aid(op, "feeder"), _aid(op, "val"), o["hash_id"], _b(o["hex_ok"]))
     if k == "vote":
-        return "Vote %d %d %d %d %d %s %s" % (_aid(op, "feeder"), _aid(op, "val"), o["salt_id"], o["rates_id"],
-                                             o["tuples_id"], _b(o["parses"]), _b(o["wl"]))
+        # validity of the revealed string: well formed (repo's tuple parser AND the driver's lexer) and, by the model's
+        # valid_rates, one tuple per pair in the DRIVER's own view of the string
+        ts = "[" + "; ".join("(%d, %s)" % (p[0], _b(p[1])) for p in (o.get("pairs") or [])) + "]"
+        return "vote_msg DupAll %d %d %d %d %d %s %s %s" % (
+            _aid(op, "feeder"), _aid(op, "val"), o["salt_id"], o["rates_id"], o["tuples_id"],
+            _b(o["parses"] and o.get("lex_ok", True)), ts, _b(o["wl"]))
     if k == "delegate":
         return "Delegate %d %d" % (_aid(op, "val"), _aid(op, "delegate"))
     if k == "edit":
@@ -197,6 +205,12 @@ def classify(rec):
                     ks.append("reveal:rates-byte-variant-of-committed:" + res)
                 elif sa == c[0] and ra == c[1] and not _plain(sa):
                     ks.append("reveal:byte-exact-odd-salt:" + res)
+            ps = o.get("pairs") or []
+            rep = [p for i, p in enumerate(ps) if any(q[0] == p[0] for j, q in enumerate(ps) if j != i)]
+            if rep and c is not None and _salt(op) == c[0] and op.get("rates", "") == c[1]:
+                npos = sum(1 for p in rep if p[1])
+                kind = "priced+priced" if npos == len(rep) else "abstain+abstain" if npos == 0 else "abstain+priced"
+                ks.append("reveal:hash-exact-repeated-pair:%s:%s" % (kind, res))
             if o["acc"]:
                 committed.pop(_aid(op, "val"), None)
         if k in ("prevote", "vote"):
@@ -308,6 +322,10 @@ def model_search(chk):
         for tail in (" ", "\n", "\r\n", "\t"):
             out.append({"vp0": vp, "nvals": 3, "ops": [pv(base, 0, 0, rates=R), vt(base + vp, 0, 0, rates=R + tail), vt(base + vp, 0, 0, rates=R)]})
             out.append({"vp0": vp, "nvals": 3, "ops": [pv(base, 0, 0, rates=R + tail), vt(base + vp, 0, 0, rates=R)]})
+        # hash-exact reveal of a string naming one pair twice / malformed: refused, prevote pending
+        for d in ("(ubtc:uusd,0)|(ubtc:uusd,1700)", "(ubtc:uusd,1700)|(ubtc:uusd,0)", "(ubtc:uusd,-1)|(ubtc:uusd,0)",
+                  "(ubtc:uusd,1)|(ubtc:uusd,2)", "(ueth:uusd,0)|(ubtc:uusd,20000.5)|(ueth:uusd,1500)", "(ubtc:uusd,0)|(ubtc:uusd)"):
+            out.append({"vp0": vp, "nvals": 3, "ops": [pv(base, 0, 0, rates=d), vt(base + vp, 0, 0, rates=d), vt(base + vp, 0, 0)]})
         out.append({"vp0": vp, "nvals": 3, "ops": [pv(base, 0, 0, mode="noval"), vt(base + vp, 0, 0)]})
         out.append({"vp0": vp, "nvals": 3, "ops": [pv(base, 5, 0), pv(base, 0, 0), vt(base + vp, 5, 0)]})  # stranger
         out.append({"vp0": vp, "nvals": 3, "ops": [{"kind": "delegate", "h": base, "val": 0, "delegate": 5}, pv(base, 5, 0),
@@ -360,7 +378,11 @@ MANIFEST = {
                  "C11_hash_preimage_exact / C11_no_transform_before_hashing / C11_current_tree_model_is_exact state that nothing "
                  "is applied to salt or rates between the message and the hash. The driver computes every commitment with its "
                  "own SHA-256 over the exact bytes and reveals committed strings by non-identical byte variants (white space, "
-                 "case, Unicode normal form, NUL) as well as byte-exactly."),
+                 "case, Unicode normal form, NUL) as well as byte-exactly. Validity of the revealed string: vote_msg / valid_rates "
+                 "(well formed and one tuple per pair in the driver's OWN lexing of the string, abstain entries included); "
+                 "C11_vote_accepted_iff_valid_rates, C11_invalid_rates_refused_prevote_pending (a hash-exact reveal naming a pair "
+                 "twice is refused, prevote pending), C11_dup_priced_only_refuted; generated fact rates_dup_check + "
+                 "C11_rates_duplicates_checked_for_all_entries."),
         "design_ref": "DESIGN.md §5 C11",
     },
     "level_note": ("Trusted: Coq kernel + vm_compute; the Go driver (canonical ids, its own SHA-256 reference hash, error "
